@@ -10,11 +10,13 @@ Import-free (core Lean only).
   pointer has no heap cell is dangling (`upgrade() == None`).
 * **Serializer side** (`serVal`): `YamlSerializer::alloc_anchor_for` (pointer table, `next_anchor_id`),
   the `pending_anchor_id` register and the `TupleSer` arms `AnchorStrong` / `AnchorWeak` of `src/ser.rs`.
-  The register is taken by scalars written through `write_scalar_prefix_if_anchor` and by
-  `serialize_seq`/`serialize_map` (`write_anchor_for_complex_node`); it is NOT looked at by
-  `serialize_none`/`serialize_unit` (`null`), by the block-scalar path of `serialize_str`, by the
-  `null` of a dangling weak, by `write_alias_id`, nor by tuple/struct *variants* (which write
-  `Variant:` and their fields directly) — modelled by `LeafKind.takesAnchor` / `Val.node takes`.
+  The register is taken by every node that is written: scalars (`write_scalar_prefix_if_anchor`, also
+  `null` from `serialize_none`/`serialize_unit` and from a dangling weak), `serialize_seq`/`serialize_map`
+  (`write_anchor_for_complex_node`) and enum variants with data (`write_anchor_before_variant_key`) —
+  with one exception that is still in the code: the block-scalar path of `serialize_str`
+  (`LeafKind.takesAnchor`).  A wrapper directly inside a wrapper is the same YAML node as the outer
+  one: while the outer anchor is pending the inner pointer is registered under that same id; if the
+  inner pointer is already anchored the node cannot be written (`SerErr.aliasNeedsAnchor`).
 * **Deserializer side** (`de`, `deE`): the thread-local `AnchorState` of `src/anchor_store.rs` (context
   stack, the four stores merged into one map keyed by kind, in-progress counts = multiplicity on the
   stack), the `__yaml_*` arms of `deserialize_newtype_struct` in `src/de.rs` (`peek_anchor_id`,
@@ -51,22 +53,22 @@ inductive LeafKind where
   /-- integer / bool / float / plain or quoted one-line string: written after `write_scalar_prefix_if_anchor` -/
   | int (n : Nat)
   | word
-  /-- `serialize_none` / `serialize_unit`: writes `null` without looking at `pending_anchor_id` -/
+  /-- `serialize_none` / `serialize_unit` / dangling weak: `null` -/
   | null
-  /-- literal / folded block scalar path of `serialize_str`: no anchor handling either -/
+  /-- literal / folded block scalar path of `serialize_str`: the only path left that does not look at
+  `pending_anchor_id` -/
   | block
 deriving DecidableEq, Repr, Inhabited
 
 def LeafKind.takesAnchor : LeafKind → Bool
-  | .int _ | .word => true
-  | .null | .block => false
+  | .int _ | .word | .null => true
+  | .block => false
 
-/-- a Rust value as seen by `Serialize`.  `node takes isMap items`: sequence / tuple / map / struct
-(`takes = true`: goes through `serialize_seq`/`serialize_map`, which emit a pending anchor) or the
-key-then-fields layout of an enum variant (`takes = false`). -/
+/-- a Rust value as seen by `Serialize`.  `node isMap items`: sequence / tuple / map / struct / enum
+variant with data (a one-entry map). -/
 inductive Val where
   | leaf (k : LeafKind)
-  | node (takes isMap : Bool) (items : List Val)
+  | node (isMap : Bool) (items : List Val)
   | strong (k : Kind) (tid : Nat) (p : Ptr)
   | weak (k : Kind) (tid : Nat) (p : Ptr)
 deriving Repr, Inhabited
@@ -80,6 +82,11 @@ inductive Out where
   | node (anchor : Nat) (isMap : Bool) (items : List Out)
   | alias (id : Nat)
 deriving Repr, Inhabited
+
+/-- an unanchored or anchored plain `null` scalar -/
+def Out.isNull : Out → Bool
+  | .leaf _ .null => true
+  | _ => false
 
 def Out.rootAnchor : Out → Nat
   | .leaf a _ => a
@@ -113,26 +120,53 @@ structure SerSt where
   held : List Ptr := []
 deriving Repr
 
-/-- `alloc_anchor_for`: `(id, is_new, state)` -/
-def allocAnchorFor (s : SerSt) (p : Ptr) : Nat × Bool × SerSt :=
-  match s.anchors.lookup p with
-  | some id => (id, false, s)
-  | none => (s.next, true, { s with anchors := (p, s.next) :: s.anchors, next := s.next + 1 })
-
-/-- `write_anchor_name` with a custom generator: `let idx = id as usize - 1; names.get(idx)`.
-`none` = the subtraction underflows (a panic in debug builds); `some (idx, inRange)`. -/
-def anchorNameIndex (s : SerSt) (id : Nat) : Option (Nat × Bool) :=
-  if id = 0 then none else some (id - 1, decide (id - 1 < s.next - 1))
-
 inductive SerErr where
   | fuel
   /-- a strong edge whose pointer has no heap cell: not a Rust value -/
   | deadStrong
   /-- `self.0.lock()` on a mutex already held by this thread: the call never returns -/
   | deadlock
+  /-- a wrapper directly inside a wrapper whose pointer is already anchored: the node would have to be
+  an alias and define an anchor at once (`Error::custom` in `alloc_anchor_for`) -/
+  | aliasNeedsAnchor
 deriving DecidableEq, Repr
 
+/-- `alloc_anchor_for`: `(id, is_new, state)`.  While an anchor is pending (we are directly inside
+another wrapper, whose node has not been written yet) the pointer is registered under that id. -/
+def allocAnchorFor (s : SerSt) (p : Ptr) : Except SerErr (Nat × Bool × SerSt) :=
+  match s.pending with
+  | some outer =>
+    match s.anchors.lookup p with
+    | some _ => .error .aliasNeedsAnchor
+    | none => .ok (outer, true, { s with anchors := (p, outer) :: s.anchors })
+  | none =>
+    match s.anchors.lookup p with
+    | some id => .ok (id, false, s)
+    | none => .ok (s.next, true, { s with anchors := (p, s.next) :: s.anchors, next := s.next + 1 })
+
+/-- `write_anchor_name` with a custom generator: `let idx = id as usize - 1; names.get(idx)`.
+`none` = the subtraction underflows (a panic in debug builds); `some (idx, inRange)`. -/
+def anchorNameIndex (s : SerSt) (id : Nat) : Option (Nat × Bool) :=
+  if id = 0 then none else some (id - 1, decide (id - 1 < s.next - 1))
+
 def lockCell (k : Kind) (p : Ptr) (held : List Ptr) : List Ptr := if k == .arcRec then p :: held else held
+
+/-- the two `TupleSer` anchor arms after the pointer of a live allocation has been captured
+(`rec` = serialization of the payload): field "ptr" decides alias or definition (`alloc_anchor_for`);
+an alias is written at once; for a definition the anchor becomes pending and the value field is
+serialized — `ArcRecursiveValue` / `ArcRecursivePayload` lock the cell's mutex only there, for the time
+the payload is written. -/
+def serPtr (rec : SerSt → Val → Except SerErr (Out × SerSt)) (s : SerSt) (k : Kind) (p : Ptr)
+    (payload : Val) : Except SerErr (Out × SerSt) :=
+  match allocAnchorFor s p with
+  | .error e => .error e
+  | .ok (id, false, s1) => .ok (.alias id, s1)
+  | .ok (id, true, s1) =>
+    if k == .arcRec && s.held.contains p then .error .deadlock
+    else
+    match rec { s1 with pending := some id, held := lockCell k p s1.held } payload with
+    | .error e => .error e
+    | .ok (o, s2) => .ok (o, { s2 with held := s.held })
 
 /-- `Serialize` of a value into the `YamlSerializer`: the anchor-relevant part.
 `fuel` bounds the nesting depth of the walk (heap cells are entered at most once each). -/
@@ -141,40 +175,20 @@ def serVal : Nat → Heap → SerSt → Val → Except SerErr (Out × SerSt)
   | _ + 1, _, s, .leaf k =>
     if k.takesAnchor then .ok (.leaf (s.pending.getD 0) k, { s with pending := none })
     else .ok (.leaf 0 k, s)
-  | fuel + 1, H, s, .node takes isMap items =>
-    let a := if takes then s.pending.getD 0 else 0
-    let s1 := if takes then { s with pending := none } else s
-    match traverse (fun st x => serVal fuel H st x) s1 items with
+  | fuel + 1, H, s, .node isMap items =>
+    match traverse (fun st x => serVal fuel H st x) { s with pending := none } items with
     | .error e => .error e
-    | .ok (outs, s2) => .ok (.node a isMap outs, s2)
+    | .ok (outs, s2) => .ok (.node (s.pending.getD 0) isMap outs, s2)
   | fuel + 1, H, s, .strong k _ p =>
-    -- TupleKind::AnchorStrong: field 0 = ptr, field 1 = value.  `ArcRecursive::serialize` locks the
-    -- cell between the two fields, whether or not the value is then written
-    if k == .arcRec && s.held.contains p then .error .deadlock
-    else
-    match allocAnchorFor s p with
-    | (id, true, s1) =>
-      match H.lookup p with
-      | none => .error .deadStrong
-      | some payload =>
-        match serVal fuel H { s1 with pending := some id, held := lockCell k p s1.held } payload with
-        | .error e => .error e
-        | .ok (o, s2) => .ok (o, { s2 with held := s.held })
-    | (id, false, s1) => .ok (.alias id, s1)
+    -- TupleKind::AnchorStrong: field 0 = ptr, field 1 = value
+    match H.lookup p with
+    | none => .error .deadStrong
+    | some payload => serPtr (fun st x => serVal fuel H st x) s k p payload
   | fuel + 1, H, s, .weak k _ p =>
     -- TupleKind::AnchorWeak: field 0 = ptr, field 1 = present, field 2 = value
     match H.lookup p with
-    | none => .ok (.leaf 0 .null, s)
-    | some payload =>
-      match allocAnchorFor s p with
-      | (id, true, s1) =>
-        -- `ArcRecursivePayload::serialize` locks the cell while the definition is written
-        if k == .arcRec && s.held.contains p then .error .deadlock
-        else
-        match serVal fuel H { s1 with pending := some id, held := lockCell k p s1.held } payload with
-        | .error e => .error e
-        | .ok (o, s2) => .ok (o, { s2 with held := s.held })
-      | (id, false, s1) => .ok (.alias id, s1)
+    | none => .ok (.leaf (s.pending.getD 0) .null, { s with pending := none })
+    | some payload => serPtr (fun st x => serVal fuel H st x) s k p payload
 
 def serialize (fuel : Nat) (H : Heap) (v : Val) : Except SerErr (Out × SerSt) := serVal fuel H {} v
 
@@ -216,7 +230,7 @@ deriving Repr, Inhabited
 def tyOf : Nat → Heap → Val → Option Ty
   | 0, _, _ => none
   | _ + 1, _, .leaf _ => some (.leaf false)
-  | fuel + 1, H, .node _ _ items => (items.mapM (fun x => tyOf fuel H x)).map .node
+  | fuel + 1, H, .node _ items => (items.mapM (fun x => tyOf fuel H x)).map .node
   | fuel + 1, H, .strong k tid p =>
     match H.lookup p with
     | none => none
@@ -229,6 +243,8 @@ inductive RVal where
   | node (isMap : Bool) (items : List RVal)
   | strong (k : Kind) (q : Ptr)
   | weak (k : Kind) (q : Ptr)
+  /-- `Weak::new()`: a dangling weak -/
+  | weakNull (k : Kind)
 deriving Repr, Inhabited
 
 inductive DeErr where
@@ -418,6 +434,16 @@ def deCore (onAlias : Ty → Nat → DeSt → DeRes) (live : Bool) : Ty → Out 
     | .alias id => onAlias (.weak k tid) id s
     | o =>
       let a := o.rootAnchor
+      if a = 0 then
+        -- de.rs: a weak wrapper always gets a context of its own (`weak_context_id`), `NOT_ANCHORED` when
+        -- its node has no anchor, so it never sees the id of an enclosing wrapper.  anchors.rs: such a
+        -- node is read as `Option<IgnoredAny>`: `null` is a dangling weak, anything else an error
+        if o.isNull then .ok (.weakNull k, o, s)
+        else
+          match (if live then skipLive o { s with stack := (k, 0) :: s.stack } else .ok (o, s)) with
+          | .error e => .error e
+          | .ok _ => .error .weakNoAnchor
+      else
       let s1 := pushCtx s k a
       match currentAnchorId s1 k with
       | none => .error .weakNoAnchor
